@@ -9,8 +9,11 @@ Requests (`n` = size of the alphabet, `falsy` = leaf classes that are false in b
   {"op":"inter","n":n,"level":l,"ds":[V,..]}       -> {"r":D} | {"e":"LenaTypeError"}
   {"op":"diffv","level":l,"a":V,"b":V,"falsy":[..]} -> {"r":V}
   {"op":"update","d":V,"other":V}                  -> {"r":D} | {"e":"LenaTypeError"}
-  {"op":"nested","k":k,"d":D,"other":D}            -> {"r":D} | {"e":"TypeError"}
-  {"op":"contained","level":l,"a":D,"b":D}         -> {"r":b} -/
+  {"op":"nested","k":k,"d":D,"other":D}            -> {"r":D,"depth":m} | {"e":"Other:TypeError","depth":m}
+  {"op":"contained","level":l,"a":D,"b":D}         -> {"r":b}
+  {"op":"assoc","n":n,"level":l,"a":D,"b":D,"c":D} -> {"abc":D,"ab_c":D,"a_bc":D,"perms":[D x 6],"fold2":D}
+  {"op":"paths","d":D,"o":D,"paths":[[k,..],..]}   -> {"r":[{"u":b,"gd":{"v":V}|null,"gu":{"v":V}|null,"go":…}, …]}
+      (u = untouchedL o p, gd = getPath d p, gu = getPath (updL d o) p, go = getPath o p) -/
 open Lean Lena Lena.Drv Lena.Val Lena.C07
 
 partial def toVal (j : Json) : Option (Val Int) :=
@@ -31,10 +34,27 @@ partial def ofVal : Val Int → Json
 
 def ofDict (l : Slots Int) : Json := ofVal (.dict l)
 
-def ofOut : Out (Slots Int) → Json
-  | .ok l => Json.mkObj [("r", ofDict l)]
-  | .lenaTypeError => Json.mkObj [("e", "LenaTypeError")]
-  | .typeError => Json.mkObj [("e", "Other:TypeError")]
+def ofOutWith (extra : List (String × Json)) : Out (Slots Int) → Json
+  | .ok l => Json.mkObj (("r", ofDict l) :: extra)
+  | .lenaTypeError => Json.mkObj (("e", "LenaTypeError") :: extra)
+  | .typeError => Json.mkObj (("e", "Other:TypeError") :: extra)
+
+def ofOut : Out (Slots Int) → Json := ofOutWith []
+
+def ofOptVal : Option (Val Int) → Json
+  | none => Json.null
+  | some v => Json.mkObj [("v", ofVal v)]
+
+def natList? (j : Json) : Option (List Nat) := do
+  let a ← arr? j
+  a.toList.mapM nat?
+
+def pathAt (d o : Slots Int) (p : List Nat) : Json :=
+  Json.mkObj [
+    ("u", Json.bool (untouchedL o p)),
+    ("gd", ofOptVal (getPath (.dict d) p)),
+    ("go", ofOptVal (getPath (.dict o) p)),
+    ("gu", ofOptVal (getPath (.dict (updL d o)) p))]
 
 def truthyOf (j : Json) : Int → Bool :=
   let falsy := (intList? (getD j "falsy")).getD []
@@ -74,13 +94,32 @@ def handle (j : Json) : Json :=
   | some "nested" =>
     match nat? (getD j "k"), toDict (getD j "d"), toDict (getD j "other") with
     | some k, some d, some o =>
-      if k < d.length && wfB d.length (.dict d) && wfB d.length (.dict o) then ofOut (updateNested k d o)
+      if k < d.length && wfB d.length (.dict d) && wfB d.length (.dict o) then
+        ofOutWith [("depth", ofNat (nestDepth k (.dict o)))] (updateNested k d o)
       else err "nested: not well-formed"
     | _, _, _ => err "bad nested args"
   | some "contained" =>
     match int? (getD j "level"), toDict (getD j "a"), toDict (getD j "b") with
     | some lv, some a, some b => Json.mkObj [("r", Json.bool (contained lv a b))]
     | _, _, _ => err "bad contained args"
+  | some "assoc" =>
+    match nat? (getD j "n"), int? (getD j "level"), toDict (getD j "a"), toDict (getD j "b"), toDict (getD j "c") with
+    | some n, some lv, some a, some b, some c =>
+      if wfB n (.dict a) && wfB n (.dict b) && wfB n (.dict c) then
+        let i := interN n lv
+        Json.mkObj [
+          ("abc", ofDict (i [a, b, c])),
+          ("ab_c", ofDict (i [i [a, b], c])),
+          ("a_bc", ofDict (i [a, i [b, c]])),
+          ("fold2", ofDict ([b, c].foldl (inter2 lv) a)),
+          ("perms", Json.arr #[ofDict (i [a, b, c]), ofDict (i [a, c, b]), ofDict (i [b, a, c]),
+                               ofDict (i [b, c, a]), ofDict (i [c, a, b]), ofDict (i [c, b, a])])]
+      else err "assoc: not well-formed"
+    | _, _, _, _, _ => err "bad assoc args"
+  | some "paths" =>
+    match toDict (getD j "d"), toDict (getD j "o"), (arr? (getD j "paths")).bind (fun a => a.toList.mapM natList?) with
+    | some d, some o, some ps => Json.mkObj [("r", Json.arr (ps.map (pathAt d o)).toArray)]
+    | _, _, _ => err "bad paths args"
   | _ => err "unknown op"
 
 def main : IO Unit := run handle
